@@ -22,11 +22,37 @@ func GenC05(seed uint64) *Plan {
 	p := g.basePlan("C05", seed)
 	sp := &p.Sources[0]
 	sp.InitLen = g.between(20, 45)
-	g.depGraph(p, uint64(g.between(4, 12)), 0)
+	reorgRun := g.chance(45)
+	if reorgRun {
+		// a short chain: the tasks reach the head at once and follow it
+		// while it grows and is replaced
+		sp.InitLen = g.between(8, 14)
+	}
+	g.depGraph(p, uint64(g.between(4, min(12, sp.InitLen-2))), 0)
 	g.transientFaults(p)
 	p.Faults.Stall = false
 	p.Faults.JumpPerMille = 0
 	p.Faults.CrashPerMille = g.pickInt([]int{0, 0, 5})
+	if reorgRun {
+		// replaced blocks: referenced integrations unwind and re-index while
+		// the dependent follows them (small batches, frequent and deep
+		// replacements, so that the dependent is often a few batches behind a
+		// referenced integration that has just unwound)
+		for _, d := range p.Decls {
+			g.hashedDecl(d)
+		}
+		g.reorgFaults(p, g.between(2, 6))
+		p.Faults.ReorgPerMille = g.pickInt([]int{15, 25, 40})
+		p.Faults.MaxReorgs = g.between(10, 40)
+		p.Faults.GrowPerMille = 12
+		p.Faults.MaxGrow = 30
+		p.Faults.HealAt = g.between(800, 2500)
+		p.Faults.HTTPPerMille = min(p.Faults.HTTPPerMille, 25)
+		p.Faults.PGPerMille = min(p.Faults.PGPerMille, 25)
+		sp.Batch = g.between(1, 3)
+		sp.Conc = g.between(1, sp.Batch)
+		p.Checks["settle"] = true
+	}
 	return p
 }
 
@@ -125,8 +151,28 @@ func c05OnCommit(w *World, ps *pairState, ci *fakepg.CommitInfo) {
 				have = oc[len(oc)-1].num
 			}
 			w.stat("probe_dependent_commit_checked", 1)
-			if have < n {
+			if have >= n {
+				continue
+			}
+			if ps.src.node.Reorgs == 0 {
 				w.violate("dependent-ahead", "pair %s recorded block %d although the integration it references (%s) has only recorded %d for the same source", ps.key, n, o.key, have)
+				continue
+			}
+			// With replaced blocks a referenced integration may unwind while
+			// the dependent's step is in flight; what the dependent may rely
+			// on is a position the referenced pair held at some moment of this
+			// very call (it reads the positions inside the call).
+			best := int64(-1)
+			for _, ch := range o.curHist {
+				if ch.seq <= ps.callStartSeq {
+					best = ch.num // in effect when the call started
+				} else if ch.num > best {
+					best = ch.num
+				}
+			}
+			w.stat("probe_dependent_commit_checked_historical", 1)
+			if best < n {
+				w.violate("dependent-ahead", "pair %s recorded block %d although the integration it references (%s) never held a position above %d during that step (now %d): the dependent did not look at the recorded positions", ps.key, n, o.key, best, have)
 			}
 		}
 	}
